@@ -542,6 +542,9 @@ type State struct {
 	epoch     string          // names the base version of heap families not yet touched
 	epochN    int
 	rec       *dryRun
+	lastLock  *HeapSnap
+	frameBase map[string]*HeapVer // guarded families: frame is relative to the value at lock acquisition
+	heldEntry map[string]bool
 }
 
 // HeapSnap is an immutable view of all heap families at one program point.
@@ -615,6 +618,10 @@ func (st *State) clone() *State {
 		n.lockSnap[k] = v
 	}
 	n.notes = append([]string(nil), st.notes...)
+	n.frameBase = make(map[string]*HeapVer, len(st.frameBase))
+	for k, v := range st.frameBase {
+		n.frameBase[k] = v
+	}
 	n.trace = append([]string(nil), st.trace...)
 	n.ghost = make(map[string]Term, len(st.ghost))
 	for k, v := range st.ghost {
